@@ -114,10 +114,10 @@ func mutexCall(c ssa.CallInstruction) (op string, lockKey string, ok bool) {
 }
 
 type lockInfo struct {
-	fn      *ssa.Function
-	in      map[*ssa.BasicBlock]lockState // state at block entry
-	at      map[ssa.Instruction]lockState // state before each instruction of interest
-	exitBad []string                      // locks held at some return (not released, not deferred)
+	fn       *ssa.Function
+	in       map[*ssa.BasicBlock]lockState // state at block entry
+	at       map[ssa.Instruction]lockState // state before each instruction of interest
+	exitBad  []string                      // locks held at some return (not released, not deferred)
 	deferred map[string]bool
 }
 
